@@ -29,6 +29,7 @@
 #include <cstdarg>
 #include <string>
 #include <vector>
+#include <type_traits>
 #include <initializer_list>
 #include <unistd.h>
 
@@ -440,7 +441,7 @@ static inline bool carry_flag() { return machine().cf; }
 static inline size_t open_scopes() { return machine().marks.size(); }
 static inline size_t live_named_registers() { return machine().named.size(); }
 
-static inline Program *lookup(const char *tmpl)
+__attribute__((noinline)) static Program *lookup(const char *tmpl)
 {
     Machine &M = machine();
     size_t h = ((uintptr_t)tmpl >> 2) * 0x9E3779B97F4A7C15ULL >> 54;
@@ -674,7 +675,7 @@ static inline void step(Machine &M, Frame &F, const Instr &in, const char *tmpl)
     }
 }
 
-static inline void exec(const char *tmpl, std::initializer_list<Out> outs = {}, std::initializer_list<In> ins = {})
+__attribute__((noinline)) static void exec(const char *tmpl, std::initializer_list<Out> outs = {}, std::initializer_list<In> ins = {})
 {
     Machine &M = machine();
     const Program *P = lookup(tmpl);
@@ -721,7 +722,7 @@ static inline void exec(const char *tmpl, std::initializer_list<Out> outs = {}, 
 
 // ------------------------------------------------------------------------------------------ self-test
 // Hand-computed cases for every implemented opcode; returns the number of failed expectations.
-static inline int selftest(FILE *log = stderr)
+__attribute__((noinline, optimize("O0"))) static int selftest(FILE *log = stderr)
 {
     int bad = 0;
     auto exp32 = [&](const char *what, uint32_t got, uint32_t want) {
